@@ -185,6 +185,12 @@ partial def parseStmts (h : IO.FS.Stream) (hist : Hist) (depth : Nat) : IO (Opti
       match parseOp o with
       | some o => out := out.push (.ist (.declCmp o x.toNat! y.toNat!))
       | none => ok := false
+    | "FA" =>      -- FA <x> <bit>          x = BitDefault(bit);   (x exists already)
+      let (x, k) := k.next
+      let (b, _) := k.next
+      match parseBits b with
+      | some v => out := out.push (.ist (.dfltAssign x.toNat! v))
+      | none => ok := false
     | "RN" =>      -- RN <x> <expr>         x.resetNode(); x = e;
       let (x, k) := k.next
       match parseExpr k with
